@@ -177,4 +177,13 @@ def elemsHasExplicit : Elems → Bool
   | .cons e r => elemHasExplicit e || elemsHasExplicit r
 end
 
+/-- some text value of the tree (any depth) holds a byte ≥ 0x80: only generated under a declared ISO_IR 192
+(UTF-8) set, where the writer's text codec is the identity on the UTF-8 bytes; the writer *model* only covers the
+default repertoire, so for such trees the drivers apply the property oracle alone -/
+def treeNonAscii (t : Dicom.Elems) : Bool :=
+  (elemsPrims t).any fun p => match p.2.2 with
+    | .str s => s.any (· ≥ 128)
+    | .strs l => l.any (·.any (· ≥ 128))
+    | _ => false
+
 end Driver
